@@ -12,6 +12,7 @@ import (
 
 	"verifharness/drv"
 	"verifharness/e1"
+	"verifharness/e4"
 	"verifharness/report"
 	"verifharness/run"
 )
@@ -23,6 +24,8 @@ func main() {
 	driver := flag.String("driver", "", "path of the Lean driver executable")
 	out := flag.String("out", "", "result JSON")
 	replay := flag.String("replay", "", "file with one abstract operation per line to replay")
+	props := flag.String("props", "", "properties whose oracles are evaluated (comma separated; empty = all)")
+	variant := flag.String("variant", "fixed", "model variant (legacy only for regression witnesses)")
 	flag.Parse()
 	res := report.New(*engine, *tier, *seed)
 	t0 := time.Now()
@@ -39,6 +42,19 @@ func main() {
 		e := e1.New(d)
 		eng = e
 		sweep = func() { e1.Sweep(e, *tier, *seed, res); res.DriverLines = d.Sent }
+	case "e4":
+		d, err := drv.Start(*driver, "e4")
+		if err != nil {
+			fmt.Fprintln(os.Stderr, err)
+			os.Exit(2)
+		}
+		defer d.Close()
+		e := e4.New(d)
+		defer e.Close()
+		e.Props = *props
+		e.Variant = *variant
+		eng = e
+		sweep = func() { e.Sweep(*tier, *seed, res); res.DriverLines = d.Sent }
 	default:
 		fmt.Fprintln(os.Stderr, "unknown engine")
 		os.Exit(2)
